@@ -80,7 +80,21 @@ func runC18(c c18Case) (r vf.Result) {
 	var opPanics []string
 	var tr transactions.Transaction
 	var rt *transactions.RetryTransaction
-	finally := func() { atomic.AddInt32(&finallyN, 1) }
+	// "after its Done channel closes, its completion callback has run": seen from inside the callback,
+	// Done must still be open (the channel is handed over once the constructor has returned; a timer
+	// which fires before that is not judged)
+	var doneCh atomic.Value
+	var doneInFinally int32
+	finally := func() {
+		if ch, ok := doneCh.Load().(<-chan struct{}); ok {
+			select {
+			case <-ch:
+				atomic.AddInt32(&doneInFinally, 1)
+			default:
+			}
+		}
+		atomic.AddInt32(&finallyN, 1)
+	}
 	if c.Kind == "retry" {
 		rt = transactions.NewRetryTransaction(ctx, time.Duration(c.DelayNs), c.Count, func(interface{}) error {
 			mu.Lock()
@@ -92,9 +106,11 @@ func runC18(c c18Case) (r vf.Result) {
 			return nil
 		}, finally)
 		tr = rt
+		doneCh.Store(tr.Done())
 		rt.Proceed(0, "data") // starts the retry timer
 	} else {
 		tr = transactions.NewTimedTransaction(ctx, time.Duration(c.DelayNs), finally)
+		doneCh.Store(tr.Done())
 	}
 	doneSeenAt := int64(-1)
 	var firstErr error
@@ -172,6 +188,10 @@ func runC18(c c18Case) (r vf.Result) {
 		r.Fail("panic-in-transaction-call", "%s: %v", desc, opPanics)
 		return
 	}
+	if atomic.LoadInt32(&doneInFinally) > 0 {
+		r.Fail("done-closed-before-completion-callback", "%s: the completion callback found Done closed already: whoever waits for Done runs before the callback has (e.g. before the transaction has left the store)", desc)
+		return
+	}
 	if n := atomic.LoadInt32(&finallyN); doneSeenAt >= 0 && n != 1 {
 		r.Fail(fmt.Sprintf("completion-callback-runs=%d", min(int(n), 3)), "%s: the transaction completed but its completion callback ran %d times", desc, n)
 		return
@@ -197,7 +217,7 @@ func TestC18(t *testing.T) {
 	vf.Check(t, vf.Prop[c18Case]{
 		ID: "C18", Name: "finished-stays-finished", Bubble: true, MarkCurrent: true,
 		Rule: "retry and timed transactions (race-detector build, virtual clock) with delays {0, 1 ns, 1 ms, 1 s}, RetryCount 0-3, a retry callback that succeeds or returns an error, and 1-5 instants at which 1-3 operations out of {Proceed, Success, Fail, cancel the context} are released together on separate goroutines without a barrier; the instants are drawn from {0, delay-1 ns, delay, delay+1 ns, k x delay} after the previous one, so acknowledgement, timer expiry and cancellation really coincide. Non-trivial = >= 2 operations within one instant, an instant on a timer expiry, or a zero/minimal delay; distinct by case.",
-		Assumptions: []string{"oracle after the history and a final advance of 10 x (RetryCount+2) x delay: completion callback ran exactly once iff Done closed; Err() read at the first observation of Done equals every later Err(); no retry-callback invocation after a quiescent point at which Done was observed closed; no panic (a panic on a timer goroutine, like a race report, kills the process and the driver attributes it to the case written to disk beforehand)"},
+		Assumptions: []string{"oracle after the history and a final advance of 10 x (RetryCount+2) x delay: completion callback ran exactly once iff Done closed, and it found Done still open when it ran; Err() read at the first observation of Done equals every later Err(); no retry-callback invocation after a quiescent point at which Done was observed closed; no panic (a panic on a timer goroutine, like a race report, kills the process and the driver attributes it to the case written to disk beforehand)"},
 		Gen:         genC18,
 		Run:         runC18,
 	})
